@@ -146,13 +146,9 @@ impl PacketKey for TapPacketKey {
                 if let Some(q) = t.inject.get_mut(&(info.owner, info.space)) {
                     if let Some((f, overlay)) = q.front().cloned() {
                         if overlay {
-                            // find the trailing padding
-                            let mut pad_start = end;
-                            while pad_start > header_len && buf[pad_start - 1] == 0 {
-                                pad_start -= 1;
-                            }
-                            // keep one byte of distance: a zero byte may be the tail of a frame
-                            let pad_start = (pad_start + 1).min(end);
+                            // the trailing PADDING, located by parsing the frames (scanning for
+                            // zero bytes would depend on the randomised CRYPTO contents)
+                            let pad_start = header_len + crate::wire::trailing_padding_start(&buf[header_len..end]);
                             if end - pad_start >= f.len() {
                                 q.pop_front();
                                 buf[pad_start..pad_start + f.len()].copy_from_slice(&f);
